@@ -510,6 +510,81 @@ func C05(r *h.Run) {
 	c05UnaryVectors(r, rng.Fork("unary-vectors"))
 	c05SentinelError(r)
 	c05RequestVectors(r, rng.Fork("request-vectors"))
+	c05RelayedError(r)
+}
+
+// c05RelayedError: a gateway handler returns, as it is, the error an upstream call gave it. The
+// metadata of a client-side error holds the upstream RESPONSE's headers — Content-Type,
+// Content-Length, Content-Encoding, Date — next to the application's own. The response the
+// gateway writes is still a well-formed one of its own: those describe another message.
+func c05RelayedError(r *h.Run) {
+	for _, proto := range []string{"connect", "grpc", "grpcweb"} {
+		for _, kind := range []string{"unary", "server"} {
+			cfg := envCfg{Proto: proto}
+			upstream := connect.NewError(connect.CodeNotFound, errors.New("no such thing upstream"))
+			for k, vs := range map[string][]string{"Content-Type": {"application/grpc+proto"}, "Content-Length": {"38"}, "Content-Encoding": {"gzip"}, "Date": {"Mon, 01 Jan 2024 00:00:00 GMT"}, "X-Upstream": {"u1"}} {
+				upstream.Meta()[k] = vs
+			}
+			var handler *connect.Handler
+			if kind == "unary" {
+				handler = connect.NewUnaryHandler("/verif.Svc/M", func(context.Context, *connect.Request[h.Raw]) (*connect.Response[h.Raw], error) {
+					return nil, upstream
+				}, connect.WithCodec(h.ToyCodec{}))
+			} else {
+				handler = connect.NewServerStreamHandler("/verif.Svc/M", func(_ context.Context, _ *connect.Request[h.Raw], s *connect.ServerStream[h.Raw]) error {
+					_ = s.Send(&h.Raw{B: []byte("m")})
+					return upstream
+				}, connect.WithCodec(h.ToyCodec{}))
+			}
+			unary := kind == "unary" && proto == "connect"
+			body := h.Frame(0, []byte("q"))
+			if unary {
+				body = []byte("q")
+			}
+			reqCT := cfg.contentType(kind == "unary")
+			req := httptest.NewRequest(http.MethodPost, "/verif.Svc/M", bytes.NewReader(body))
+			req.ProtoMajor, req.ProtoMinor = 2, 0
+			req.Header.Set("Content-Type", reqCT)
+			rec := httptest.NewRecorder()
+			p := safely(func() { handler.ServeHTTP(rec, req) })
+			in := map[string]any{"proto": proto, "kind": kind, "handler": "returns an error whose metadata holds an upstream response's Content-Type, Content-Length, Content-Encoding and Date next to X-Upstream"}
+			r.Eval("relayed_error", fmt.Sprint(proto, kind))
+			if p != nil {
+				r.Fail(h.Failure{Key: "conformance/panic", Family: "relayed_error", What: fmt.Sprint("panic: ", p), Input: in})
+				continue
+			}
+			hdr, trailer := splitTrailers(rec)
+			r.Sample("relayed_error", map[string]any{"in": in, "status": rec.Code, "header": hdr, "trailer": trailer, "body_hex": h.Hex(rec.Body.Bytes())})
+			wantCT := reqCT
+			if unary {
+				wantCT = "application/json"
+			}
+			var problems []string
+			if got := hdr.Values("Content-Type"); len(got) != 1 || got[0] != wantCT {
+				problems = append(problems, fmt.Sprintf("Content-Type is %q, not exactly [%q]", got, wantCT))
+			}
+			for _, where := range []http.Header{hdr, trailer} {
+				for _, v := range where.Values("Content-Length") {
+					if v != fmt.Sprint(rec.Body.Len()) {
+						problems = append(problems, fmt.Sprintf("Content-Length: %s over a body of %d bytes", v, rec.Body.Len()))
+					}
+				}
+			}
+			if len(trailer.Values("Content-Length"))+len(trailer.Values("Content-Type")) > 0 {
+				problems = append(problems, "Content-Length / Content-Type sent as HTTP trailers")
+			}
+			if enc := hdr.Get("Content-Encoding"); enc != "" && enc != "identity" {
+				problems = append(problems, "Content-Encoding: "+enc+" over an uncompressed body")
+			}
+			if len(problems) > 0 {
+				r.Fail(h.Failure{Key: "conformance/relayed-transport-headers", Family: "relayed_error", What: "headers describing ANOTHER message (the upstream response) were written into this response", Input: in, Actual: problems})
+			}
+			code, msg := peerError(proto, map[bool]string{true: "unary", false: "server"}[unary], rec)
+			if code != "not_found" || msg != "no such thing upstream" {
+				r.Fail(h.Failure{Key: "conformance/relayed-error-lost", Family: "relayed_error", What: "the relayed error does not arrive with its code and message", Input: in, Actual: code + ": " + msg})
+			}
+		}
+	}
 }
 
 // c05RequestVectors: conformant client-streaming REQUESTS as a peer writes them (binary
